@@ -222,7 +222,8 @@ public:
 
     //! Allocate space for n objects.
     __TBB_nodiscard T* allocate(std::size_t n) {
-        T* p = static_cast<T*>(scalable_malloc(n * sizeof(value_type)));
+        // n * sizeof(value_type) must be representable: a wrapped product would be served by a tiny block
+        T* p = n <= ~std::size_t(0) / sizeof(value_type) ? static_cast<T*>(scalable_malloc(n * sizeof(value_type))) : nullptr;
         if (!p) {
             throw_exception(std::bad_alloc());
         }
